@@ -18,6 +18,7 @@ fn new_case(ty: &str, n: usize) -> Option<Box<dyn Runner>> {
         "mvreg" | "mvreg_raw" => Box::new(Machine::<sut::mvreg::MV>::new(n)),
         "glist" => Box::new(Machine::<sut::glist::GL>::new(n)),
         "list" => Box::new(Machine::<sut::glist::LS>::new(n)),
+        "list_raw" => Box::new(Machine::<sut::glist::LSRaw>::new(n)),
         "map_mvreg" => Box::new(Machine::<sut::map::MapMV>::new(n)),
         "map_orswot" => Box::new(Machine::<sut::map::MapOR>::new(n)),
         "map_map_mvreg" => Box::new(Machine::<sut::map::MapMapMV>::new(n)),
